@@ -101,6 +101,47 @@ class View:
         return self.arr
 
 
+class ColView:
+    """`a[:, c]` of a 2-d array: the 1-d column sharing the cells of `a`."""
+
+    def __init__(self, arr, col):
+        self.arr, self.col = arr, _int(col)
+        self.shape = (arr.shape[0],)
+        self.ndim = 1
+
+    @property
+    def loc(self):
+        return self.arr.loc
+
+    def sel(self, heap, i):
+        return self.arr.sel(heap, i, self.col)
+
+    def base(self):
+        return self.arr.base()
+
+
+class LazyArr:
+    """Immutable 1-d temporary produced by numpy elementwise arithmetic: element i is the *term* fn(i).
+    Keeping temporaries transparent (instead of fresh arrays defined by quantified facts) lets a whole vectorised
+    expression be normalised as one term."""
+
+    def __init__(self, shape, fn):
+        self.shape, self.fn, self.ndim = tuple(shape), fn, 1
+
+    def sel(self, heap, i):
+        return self.fn(_int(i))
+
+
+def materialise(st, a, prefix="tmp"):
+    """A named array equal to the lazy temporary `a` (for contracts that need a pattern on its elements)."""
+    if not isinstance(a, LazyArr):
+        return a
+    out = st.new_array(a.shape, prefix)
+    i = z3.Int("i!mat")
+    st.pc.append(z3.ForAll([i], out.sel(st.heap, i) == a.sel(st.heap, i), patterns=[out.sel(st.heap, i)]))
+    return out
+
+
 class Prefix:
     """`a[:n]` of a 1-d array (only ever returned)."""
 
@@ -196,6 +237,8 @@ def _shape_key(t):
         return k[1]
     if t.sort() == INT:
         r = "_"
+    elif t.sort().kind() == z3.Z3_ARRAY_SORT and z3.is_const(t):
+        r = "<" + t.decl().name().split("!")[0] + ">"  # the version counter of an array is blanked (versions agree on the cells that matter)
     elif z3.is_app(t):
         r = t.decl().name() + ("(" + ",".join(_shape_key(c) for c in t.children()) + ")" if t.num_args() else "")
     else:
@@ -487,24 +530,22 @@ class _Exec:
 
     def e_BinOp(self, node, st):
         a, b = self.eval(node.left, st), self.eval(node.right, st)
-        if isinstance(a, (Arr, View)) and isinstance(b, (Arr, View)):
+        ARR = (Arr, View, ColView, LazyArr)
+        if isinstance(a, ARR) and isinstance(b, ARR):
             # numpy elementwise arithmetic on 1-d arrays of equal length: a new array
-            if a.ndim != 1 or b.ndim != 1 or not isinstance(node.op, (ast.Add, ast.Sub, ast.Mult)):
-                raise Unsupported("array arithmetic other than elementwise + - * on 1-d arrays")
-            self.oblige(f"elementwise_operands_have_equal_length@line{node.lineno}", st, a.shape[0] == b.shape[0])
-            out = st.new_array(a.shape, "elementwise")
-            i = z3.Int("i!ew")
-            st.pc.append(z3.ForAll([i], out.sel(st.heap, i) == _arith(node.op, a.sel(st.heap, i), b.sel(st.heap, i)), patterns=[out.sel(st.heap, i)]))
-            return out
-        if isinstance(a, (Arr, View)) != isinstance(b, (Arr, View)):
-            arr, sc, arr_left = (a, b, True) if isinstance(a, (Arr, View)) else (b, a, False)
+            if a.ndim != 1 or b.ndim != 1 or not isinstance(node.op, (ast.Add, ast.Sub, ast.Mult, ast.Div)):
+                raise Unsupported("array arithmetic other than elementwise + - * / on 1-d arrays")
+            self.oblige(f"elementwise_operands_have_equal_length@line{node.lineno}", st, _int(a.shape[0]) == _int(b.shape[0]))
+            heap_now, op = dict(st.heap), node.op
+            return LazyArr(a.shape, lambda i: _arith(op, a.sel(heap_now, i), b.sel(heap_now, i)))
+        if isinstance(a, ARR) != isinstance(b, ARR):
+            arr, sc, arr_left = (a, b, True) if isinstance(a, ARR) else (b, a, False)
+            heap_now, op = dict(st.heap), node.op
+            if isinstance(node.op, ast.Pow) and arr_left and isinstance(sc, int) and arr.ndim == 1:
+                return LazyArr(arr.shape, lambda i: _arith(op, arr.sel(heap_now, i), sc))
             if arr.ndim != 1 or not _is_num(sc) or _is_inf(sc) or not isinstance(node.op, (ast.Add, ast.Sub, ast.Mult, ast.Div)):
-                raise Unsupported("array/scalar arithmetic other than + - * / on a 1-d array and a finite scalar")
-            out = st.new_array(arr.shape, "elementwise")
-            i = z3.Int("i!ew")
-            x = arr.sel(st.heap, i)
-            st.pc.append(z3.ForAll([i], out.sel(st.heap, i) == (_arith(node.op, x, sc) if arr_left else _arith(node.op, sc, x)), patterns=[out.sel(st.heap, i)]))
-            return out
+                raise Unsupported("array/scalar arithmetic other than + - * / ** on a 1-d array and a finite scalar")
+            return LazyArr(arr.shape, (lambda i: _arith(op, arr.sel(heap_now, i), sc)) if arr_left else (lambda i: _arith(op, sc, arr.sel(heap_now, i))))
         if all(isinstance(x, (int, float)) and not isinstance(x, bool) for x in (a, b)) and not isinstance(node.op, ast.Div):
             return {ast.Add: a + b, ast.Sub: a - b, ast.Mult: a * b}.get(type(node.op)) if type(node.op) in (ast.Add, ast.Sub, ast.Mult) else _arith(node.op, a, b)
         return _arith(node.op, a, b)
@@ -554,14 +595,12 @@ class _Exec:
                 conj.append(z3.BoolVal((left == right) == isinstance(op, ast.Eq)))
                 left = right
                 continue
-            if isinstance(left, (Arr, View)) and _is_num(right) and not _is_inf(right) and left.ndim == 1 and len(node.ops) == 1:
-                term, sc, cmp = st.heap[left.loc] if isinstance(left, Arr) else None, _real(right), type(op)
-                if term is None:
-                    raise Unsupported("mask of a view")
+            if isinstance(left, (Arr, View, ColView, LazyArr)) and _is_num(right) and not _is_inf(right) and left.ndim == 1 and len(node.ops) == 1:
+                sc, cmp, heap_now = _real(right), type(op), dict(st.heap)
                 f = {ast.Lt: lambda a, b: a < b, ast.LtE: lambda a, b: a <= b, ast.Gt: lambda a, b: a > b, ast.GtE: lambda a, b: a >= b}.get(cmp)
                 if f is None:
                     raise Unsupported("array comparison other than < <= > >=")
-                return Mask(lambda i, term=term, sc=sc, f=f: f(z3.Select(term, i), sc), left.shape)
+                return Mask(lambda i, arr=left, sc=sc, f=f: f(arr.sel(heap_now, i), sc), left.shape)
             if not (_is_num(left) and _is_num(right)):
                 raise Unsupported(f"comparison of {left!r} and {right!r}")
             if _is_inf(left) or _is_inf(right):
@@ -599,7 +638,7 @@ class _Exec:
         if d is not None and d in self.spec.externals:
             return self.spec.externals[d]
         v = self.eval(node.value, st)
-        if isinstance(v, (Arr, View)):
+        if isinstance(v, (Arr, View, ColView, LazyArr)):
             if node.attr == "shape":
                 return tuple(v.shape)
             if node.attr == "size":
@@ -616,11 +655,21 @@ class _Exec:
             if isinstance(i, int):
                 return v[i]
             raise Unsupported("tuple indexed by a symbolic value")
+        if isinstance(v, LazyArr):
+            idx = self.eval(sl, st)
+            if isinstance(idx, Mask):
+                return self.filter(st, v, idx, node)
+            self.bounds(st, v, (idx,), node)
+            return v.sel(st.heap, idx)
         if isinstance(v, (Arr, View)):
             if isinstance(sl, ast.Slice):
                 if sl.lower is None and sl.step is None and sl.upper is not None and v.ndim == 1:
                     return Prefix(v, _int(self.eval(sl.upper, st)))
                 raise Unsupported("general slice")
+            if isinstance(sl, ast.Tuple) and len(sl.elts) == 2 and isinstance(sl.elts[0], ast.Slice) and sl.elts[0].lower is None and sl.elts[0].upper is None and sl.elts[0].step is None and v.ndim == 2:
+                c = _int(self.eval(sl.elts[1], st))
+                self.oblige(f"index_in_bounds@line{node.lineno}", st, z3.And(c >= 0, c < _int(v.shape[1])), where=f"line {node.lineno}")
+                return ColView(v, c)
             idx = self.eval(sl, st)
             if isinstance(idx, Mask):
                 return self.filter(st, v, idx, node)
@@ -663,7 +712,6 @@ class _Exec:
         out = st.new_array((k,), "filtered")
         j = z3.Int("j!f")
         st.pc.append(z3.ForAll([j], z3.Implies(z3.And(j >= 0, j < k), out.sel(st.heap, j) == v.sel(st.heap, pos(j))), patterns=[out.sel(st.heap, j)]))
-        out.filtered = (v, st.heap[v.loc], pos, inv, mask)
         return out
 
     def bounds(self, st, v, idx, node):
@@ -680,7 +728,7 @@ class _Exec:
                 recv = self.eval(node.func.value, st)
             except Unsupported:
                 recv = None
-            if isinstance(recv, (Arr, View)):
+            if isinstance(recv, (Arr, View, ColView, LazyArr)):
                 m = self.spec.externals.get(f"ndarray.{node.func.attr}")
                 if m is None:
                     raise Unsupported(f"method .{node.func.attr}() of an array (no contract given)")
@@ -731,6 +779,25 @@ class _Exec:
             a = self.eval(target.value, st)
             if not isinstance(a, (Arr, View)):
                 raise Unsupported(f"store into {a!r}")
+            sl = target.slice
+            if isinstance(sl, ast.Tuple) and len(sl.elts) == 2 and isinstance(sl.elts[0], ast.Slice) and sl.elts[0].lower is None and sl.elts[0].upper is None and sl.elts[0].step is None and a.ndim == 2:
+                # column store `a[:, c] = v` (v: 1-d array of the column's length, evaluated before the store)
+                c = _int(self.eval(sl.elts[1], st))
+                self.oblige(f"index_in_bounds@line{node.lineno}", st, z3.And(c >= 0, c < _int(a.shape[1])), where=f"line {node.lineno}")
+                if not isinstance(value, (Arr, View, ColView, LazyArr)) or value.ndim != 1:
+                    raise Unsupported("column store of a value that is not a 1-d array")
+                self.oblige(f"column_store_lengths_agree@line{node.lineno}", st, _int(value.shape[0]) == _int(a.shape[0]))
+                heap_now = dict(st.heap)  # terms are values: selecting through this copy is a snapshot of the right-hand side
+                base = a.base()
+                old_term = st.heap[base.loc]
+                new_term = fresh("colstore", arr_sort(base.ndim))
+                pre = list(getattr(a, "prefix", ()))
+                idx = [z3.Int(f"k{d}!cs") for d in range(base.ndim)]
+                row, col = idx[len(pre)], idx[len(pre) + 1]
+                hit = z3.And(*[i == p for i, p in zip(idx, pre)], col == c, row >= 0, row < _int(a.shape[0]))
+                st.pc.append(z3.ForAll(idx, z3.Select(new_term, *idx) == z3.If(hit, value.sel(heap_now, row), z3.Select(old_term, *idx)), patterns=[z3.Select(new_term, *idx)]))
+                st.heap[base.loc] = new_term
+                return
             idx = self.eval(target.slice, st)
             idx = idx if isinstance(idx, tuple) else (idx,)
             if len(idx) != a.ndim:
